@@ -20,17 +20,21 @@ Proj == [running |-> B'.running, bound |-> SetToSeq(B'.bound), closing |-> SetTo
 Log(a, p, cls) == env' = Append(env, [a |-> a, p |-> p, cls |-> cls, exp |-> Proj])
 
 GInit == Init /\ env = <<>>
+\* The statement speaks about the bridge between calls, not about the inside of start(): a correct bridge may bind its ports
+\* one per loop cycle (as the pinned commit does), all at once, or with further awaits in between.  So the environment
+\* (foreign sockets, datagrams, loop cycles) acts only while no start is in progress, and harness/replay.py compares the
+\* projection only then.  (MC_Bridge itself keeps every interleaving: that is model checking of the design.)
 GNext ==
   \/ StartBegin /\ Log("StartBegin", 0, "")
   \* steps that let the event loop run also let it finish pending releases: they only follow a Cycle
   \/ B.closing = {} /\ StartPort /\ Log("StartPort", at, "")
   \/ B.closing = {} /\ StartDone /\ Log("StartDone", 0, "")
   \/ Stop /\ Log("Stop", 0, "")
-  \/ at = 0 /\ Cycle /\ Log("Cycle", 0, "")          \* (a loop cycle would also advance a start in progress)
-  \/ \E p \in Ports : \/ Occupy(p) /\ Log("Occupy", p, "")
-                      \/ Free(p) /\ Log("Free", p, "")
-                      \/ B.closing = {} /\ at = 0 /\ Receive(p) /\ Log("Receive", p, Head(queue[p]).cls)
-                      \/ \E c \in Classes : Send(p, c) /\ Log("Send", p, c)
+  \/ at = 0 /\ Cycle /\ Log("Cycle", 0, "")
+  \/ at = 0 /\ \E p \in Ports : \/ Occupy(p) /\ Log("Occupy", p, "")
+                                \/ Free(p) /\ Log("Free", p, "")
+                                \/ B.closing = {} /\ Receive(p) /\ Log("Receive", p, Head(queue[p]).cls)
+                                \/ \E c \in Classes : Send(p, c) /\ Log("Send", p, c)
 GSpec == GInit /\ [][GNext]_gvars
 
 \* print the behaviour when it has reached the simulation depth
